@@ -176,7 +176,7 @@ def check(res, tier):
 
 # ---- `cfn-guard test --dir`: which test files are run against which rules file ----------------
 
-PREFIXES = ["r", "r_more", "rx", "ab", "abc", "s3", "s3_bucket", "s3_bucket_encryption", "a"]
+PREFIXES = ["r", "r_more", "rx", "ab", "abc", "s3", "s3_bucket", "s3_bucket_encryption", "a", "s3-bucket", "r-x", "r.more", "ab-c", "s3.v2"]
 
 
 def test_dirs(res, tier):
@@ -197,7 +197,7 @@ def test_dirs(res, tier):
                 rules, tests = [], []
                 for k, p in enumerate(prefixes):
                     rn = p + (".ruleset" if rnd.random() < 0.2 else ".guard")
-                    rule = "rule_%s" % p
+                    rule = "rule_%s" % p.replace("-", "_").replace(".", "_")
                     open(os.path.join(d, rn), "w").write("rule %s {\n  id exists\n}\n" % rule)
                     rules.append(rn)
                     if rnd.random() < 0.85:
